@@ -58,8 +58,13 @@ Definition c_arith (m : arith) (z : Z) : cres Z :=
      case Token::MINUS: result = -element->getValue();                                                   *)
 Definition repo_arith : arith := ArithWrap.
 (* ConstProp::visitPost(ValDecl): `if (decl.getExpr()->isConst()) decl.setValue(...)` -- a non-constant val is
-   accepted and its value stays uninitialised (true = the repaired source throws NonConstValError instead) *)
+   accepted and its value stays uninitialised; a reference to a val whose value has not been set reads that
+   uninitialised int.  (true = the repaired source: `std::optional<int> exprValue`; NonConstValError thrown at the
+   declaration and at a call through a val that has no value yet; a plain reference to such a val is not constant) *)
 Definition repo_rejects_nonconst_val : bool := false.
+(* a reference to a ValDecl whose value has not been set: as a name in an expression / as the name of a call *)
+Definition unset_val_call {A : Type} (f : string) : cres A :=
+  if repo_rejects_nonconst_val then CErr (NonConstVal f) else CUB (UninitValRead f).
 
 (* ---------------------------------------------------------------- annotated tree *)
 (* every constructor mirrors one Expr class; `c` is Expr::constValue *)
@@ -180,7 +185,7 @@ Definition cp_call (E : cpenv) (f : string) (sysid : Z) (args : list aexpr) : cr
     | NUnknown => CErr (UnknownSymbol f)
     | NNotVal => COk (f, sysid, args)
     | NVal v => check v
-    | NValUninit => CUB (UninitValRead f)
+    | NValUninit => unset_val_call f
     end
   else check sysid.
 
@@ -194,7 +199,8 @@ Fixpoint cp_expr (E : cpenv) (e : expr) : cres aexpr :=
       | NUnknown => CErr (UnknownSymbol x)
       | NNotVal => COk (AVar x None)
       | NVal v => COk (AVar x (Some v))
-      | NValUninit => CUB (UninitValRead x)
+      | NValUninit => if repo_rejects_nonconst_val then COk (AVar x None)     (* `if (symbolExpr->hasValue())` *)
+                    else CUB (UninitValRead x)
       end
   | ESub a i => cbind (cp_expr E i) (fun i' => COk (ASub a i'))
   | ECall f args =>
